@@ -177,16 +177,43 @@ def func_node(fn):
             raise EngineError(f"anchor missing: lambda at {path}:{code.co_firstlineno}")
         return cands[0]
     node = find_def(path, fn.__qualname__)
+    if node is not None:
+        lines = [node.lineno] + [d.lineno for d in node.decorator_list]
+        if code.co_firstlineno not in lines or path in source_overrides:
+            node = None  # several defs may share the name (singledispatch '_'): identify by line / header
     if node is None:
-        # singledispatch registered '_' functions: locate by line
+        node = _def_by_line(path, fn)
+        if node is None:
+            raise EngineError(f"anchor missing: {fn.__qualname__} in {path}")
+    return node
+
+
+def _header(n):
+    return (n.name, ast.unparse(n.args), tuple(ast.unparse(d) for d in n.decorator_list))
+
+
+def _def_by_line(path, fn):
+    """The def at the function's first line in the file on disk; under an in-memory override, the def with
+    the same name, signature and decorators."""
+    code = fn.__code__
+    with open(path) as f:
+        disk = ast.parse(f.read())
+    orig = None
+    for n in ast.walk(disk):
+        if isinstance(n, ast.FunctionDef) and n.name == fn.__name__:
+            if code.co_firstlineno in [n.lineno] + [d.lineno for d in n.decorator_list]:
+                orig = n
+    if orig is None:
+        return None
+    if path not in source_overrides:
         _, tree = file_ast(path)
         for n in ast.walk(tree):
-            if isinstance(n, ast.FunctionDef) and n.name == fn.__name__:
-                lines = [n.lineno] + [d.lineno for d in n.decorator_list]
-                if code.co_firstlineno in lines:
-                    return n
-        raise EngineError(f"anchor missing: {fn.__qualname__} in {path}")
-    return node
+            if isinstance(n, ast.FunctionDef) and n.lineno == orig.lineno and n.name == orig.name:
+                return n
+        return None
+    _, tree = file_ast(path)
+    cands = [n for n in ast.walk(tree) if isinstance(n, ast.FunctionDef) and _header(n) == _header(orig)]
+    return cands[0] if len(cands) == 1 else None
 
 
 INTERPRETABLE_PREFIXES = ["/repo/ffcx/", "/verif/contracts/"]
@@ -561,6 +588,10 @@ class Interp:
         if isinstance(a, SV) or isinstance(b, SV):
             if a is None or b is None:
                 return False
+            if (isinstance(a, SV) and a.kind == "bool" and isinstance(b, bool | SV)) or (
+                isinstance(b, SV) and b.kind == "bool" and isinstance(a, bool | SV)
+            ):
+                return models.sv_compare(self, ast.Eq, a, b)
             raise Unsupported("identity of symbolic scalars")
         return a is b
 
@@ -644,6 +675,8 @@ class Interp:
             fn, types.BuiltinMethodType
         ) and isinstance(getattr(fn, "__self__", None), list | tuple) and fn.__name__ in models.LIST_METHOD_MODELS:
             return models.LIST_METHOD_MODELS[fn.__name__](self, fn.__self__, *args, **kwargs)
+        if symbolic and isinstance(fn, types.BuiltinMethodType) and isinstance(getattr(fn, "__self__", None), str):
+            return models._str_method(self, fn.__self__, fn.__name__, *args)
         if symbolic and models.shallow_safe(fn, args, kwargs):
             try:
                 return fn(*args, **kwargs)
@@ -1216,7 +1249,7 @@ class Interp:
     def e_Set(self, n, env):
         xs = self._elts(n.elts, env)
         if is_symbolic(xs):
-            raise Unsupported("set display with symbolic elements")
+            return models.symbolic_set(self, xs)
         return set(xs)
 
     def _elts(self, elts, env):
